@@ -169,7 +169,8 @@ def alive_tables(run, f):
             continue
         run.count_body(b)
         flds = f.adts[adt]["variants"][0]["fields"]
-        chan_idx = [i for i, fl in enumerate(flds) if "Sender" in f.ty(fl["ty"]).s and "mpsc" in f.ty(fl["ty"]).s]
+        import anchors
+        chan_idx = [p_ for p_, _, _ in anchors.field_paths(f, adt, lambda ty: ty.k == "adt" and ty.defn.startswith("tokio::sync::mpsc") and "Sender" in ty.defn)]
         it = Interp(f, builtins={"tokio::sync::mpsc::Sender::<T>::is_closed": bi_closed, "tokio::sync::mpsc::WeakSender::<T>::strong_count": bi_count,
                                  "tokio::sync::mpsc::WeakSender::<T>::upgrade": bi_upgrade})
         try:
@@ -203,7 +204,7 @@ def alive_tables(run, f):
                     want = True
             if want is not None and v != B(want):
                 bad.append("is_alive = %s under %s" % (mi.show(v), ks))
-        exp_keys = {("closed(?self.%d)" % i) if prim == "closed" else ("Gt(?count(?self.%d),0)" % i) for i in chan_idx}
+        exp_keys = {("closed(?self.%s)" % i) if prim == "closed" else ("Gt(?count(?self.%s),0)" % i) for i in chan_idx}
         if keys != exp_keys:
             bad.append("consults %s, expected %s" % (sorted(keys), sorted(exp_keys)))
         run.require(not bad and len(res) >= 3, "O11.3", "is_alive-table:%s" % adt.split("::")[-1], "; ".join(bad[:3]) or "table too small",
